@@ -26,7 +26,7 @@ RULE = ("probe = (pair in a random spelling, large, mode, very_readable) with op
         "Non-trivial = probe whose pair needs fixing; distinct = probe x history.")
 ASSUMPTIONS = ["thread schedules are sampled, not enumerated (distinct call/return orders are counted in the evidence)",
                "module-state drift (fingerprint of cm_colors.* module globals, function defaults, functools caches) is evidence, not a violation"]
-MUST_OBSERVE = {"any": ["fresh_observations", "history_observations", "bulk_position_observations", "repeat_observations", "thread_observations", "fingerprints_compared", "history_ops"]}
+MUST_OBSERVE = {"any": ["fresh_observations", "history_observations", "bulk_position_observations", "repeat_observations", "thread_observations", "fingerprints_compared", "history_ops", "fresh_thread_observations"]}
 SIZES = {"quick": dict(probes=10, hist=2, rounds=1), "thorough": dict(probes=120, hist=4, rounds=6)}
 SHARD_TIMEOUT = {"quick": 900, "thorough": 7200}
 
@@ -35,6 +35,7 @@ def shards(tier, seed):
     z = SIZES[tier]
     out = [{"kind": "history", "seed": seed, "idx": i, "n": z["probes"], "hist": z["hist"]} for i in range(12)]
     out += [{"kind": "threads", "seed": seed, "idx": i, "rounds": z["rounds"]} for i in range(4)]
+    out += [{"kind": "fresh_threads", "seed": seed, "idx": i, "n": 2 if tier == "quick" else 20} for i in range(4)]
     return out
 
 
@@ -48,6 +49,16 @@ def alias_probe(rnd, op=None):
     b = rnd.choice([(255, 255, 255), (0, 0, 0), (40, 40, 40), (230, 230, 230)])
     return {"op": op or rnd.choice(["fix", "label", "bulk"]), "text": list(bits), "tk": "tuple", "bg": list(b), "bk": "tuple",
             "large": rnd.random() < 0.3, "mode": rnd.randrange(3), "vr": rnd.random() < 0.3, "t": list(t), "b": list(b), "alias": True}
+
+
+def str_alias_probe(rnd, op=None):
+    """Text given as a float tuple whose str() is itself a legal (informal) colour string with another meaning:
+    (0.6, 0.6, 0.6) is 60% grey, the string '(0.6, 0.6, 0.6)' is channels 0.6 -> (1, 1, 1)."""
+    v = [round(rnd.choice([0.2, 0.4, 0.5, 0.6, 0.8, rnd.random()]), 2) for _ in range(3)]
+    t = [int(round(x * 255)) for x in v]
+    b = rnd.choice([(255, 255, 255), (0, 0, 0), (250, 250, 240)])
+    return {"op": op or rnd.choice(["fix", "label", "bulk"]), "text": v, "tk": "tuple", "bg": list(b), "bk": "tuple", "large": False,
+            "mode": rnd.randrange(3), "vr": False, "t": t, "b": list(b), "str_alias": True}
 
 
 def translucent_bg_probe(rnd, op=None):
@@ -68,6 +79,8 @@ def make_probe(rnd, op=None):
         return alias_probe(rnd, op)
     if r0 < 0.2:
         return translucent_bg_probe(rnd, op)
+    if r0 < 0.27:
+        return str_alias_probe(rnd, op)
     for _ in range(50):
         large, vr = rnd.random() < 0.4, rnd.random() < 0.4
         r = rnd.random()
@@ -108,6 +121,12 @@ def history_ops(rnd, probe, n):
         ops.append(("fix", ints, "tuple", probe["bg"], probe["bk"], probe["large"], probe["mode"], probe["vr"]))
         ops.append(("fix", [bool(x) for x in ints], "tuple", probe["bg"], probe["bk"], probe["large"], probe["mode"], probe["vr"]))
         ops.append(("label", ints, probe["b"]))
+    if probe.get("str_alias"):
+        # the strings that spell the same characters as the tuples (and as the list forms)
+        for bgform in (tuple(probe["bg"]), list(probe["bg"])):
+            ops.append(("fix", str(tuple(probe["text"])), "str", str(tuple(probe["bg"])), "str", probe["large"], probe["mode"], probe["vr"]))
+        ops.append(("fix", str(list(probe["text"])), "str", probe["bg"], probe["bk"], probe["large"], probe["mode"], probe["vr"]))
+        ops.append(("fix", repr(tuple(probe["text"])).replace(" ", ""), "str", probe["bg"], probe["bk"], probe["large"], probe["mode"], probe["vr"]))
     for _ in range(n):
         k = rnd.randrange(12)
         if k == 0:    # same text, other background
@@ -233,8 +252,40 @@ def work(shard, rec):
     os.makedirs(scratch, exist_ok=True)
     if shard["kind"] == "history":
         histories(shard, rec, lib, scratch)
+    elif shard["kind"] == "fresh_threads":
+        fresh_threads(shard, rec, lib)
     else:
         threads(shard, rec, lib, scratch)
+
+
+def fresh_threads(shard, rec, lib):
+    """Fresh interpreters whose very first library calls are issued by 16 threads at once (a thread pool starting up):
+    every thread's answer must equal the sequential answer. Timing dependent: a silent run is 'held on what was observed'."""
+    rnd = G.rng("c15ft", shard["seed"], shard["idx"])
+    for k in range(shard["n"]):
+        probes = [make_probe(rnd, op=rnd.choice(["fix", "label", "bulk"])) for _ in range(2)]
+        ref = [run_probe(lib, p) for p in probes]
+        e = dict(os.environ)
+        e["PYTHONDONTWRITEBYTECODE"] = "1"
+        try:
+            p = subprocess.run([sys.executable, "-m", "cmv.fresh_threads", json.dumps(probes), "16"], cwd=env.HOME, env=e,
+                               stdout=subprocess.PIPE, stderr=subprocess.PIPE, timeout=600)
+        except subprocess.TimeoutExpired:
+            rec.inconc("fresh-interpreter thread run exceeded its watchdog")
+            continue
+        if p.returncode != 0:
+            rec.inconc("fresh-interpreter thread run failed: " + p.stderr.decode("utf-8", "replace")[-300:])
+            continue
+        res = json.loads(p.stdout.decode("utf-8", "replace"))
+        rec.count("fresh_thread_processes")
+        for ti, row in enumerate(res):
+            for pi, got in enumerate(row):
+                rec.ev()
+                rec.count("fresh_thread_observations")
+                if got != ref[pi]:
+                    rec.violation(f"probe {probe_desc(probes[pi])} issued by thread {ti} of 16 as the first use of the library in a fresh interpreter gives "
+                                  f"{got} but {ref[pi]} sequentially", {"probe": probes[pi], "how": "fresh-threads"})
+        rec.nontrivial(("fresh-threads", shard["idx"], k))
 
 
 def histories(shard, rec, lib, scratch):
